@@ -139,7 +139,14 @@ impl Gen {
         let ok = self.sim.step(&op);
         let kind = match &op { SOp::Tx { msg, .. } => msg.kind(), SOp::SetBlock { .. } => "block", SOp::BankSend { .. } => "bank_send", SOp::SetFault(_) => "fault", SOp::Query(q) => q.kind() };
         *self.hist.entry(format!("{}:{}", kind, if ok { "ok" } else { "err" })).or_insert(0) += 1;
-        self.obs.push(crate::val::vl(vec![crate::val::vbool(ok), self.sim.snapshot()]));
+        let mut step = vec![crate::val::vbool(ok), self.sim.snapshot()];
+        // an accepted direct swap to the pool manager also shows the amounts it reported
+        if let SOp::Tx { target, msg: SMsg::PmSwap { .. }, .. } = &op {
+            if ok && target == "PM" {
+                step.push(crate::val::vl(self.sim.last_swap_attrs.clone().unwrap_or_default().into_iter().map(crate::val::vz).collect()));
+            }
+        }
+        self.obs.push(crate::val::vl(step));
         self.ops.push(op);
         self.oks.push(ok);
         ok
